@@ -3,16 +3,35 @@
 package object
 
 // C41, wire part: the fast header paths of wire.go against full decoding
-// (object.Object.Unmarshal) on generated valid objects, every truncation of their
-// encodings, structure-aware and byte-level mutations and random strings.  All inputs are
-// executed in child processes which record each input on disk first, so that a
-// process-fatal runtime error (checkptr under -race in the thorough tier) is reported with
-// the input that caused it.
+// (object.Object.Unmarshal).
+//
+// What is demanded (read off the property text, see /verif/notes/C41.md):
+//
+//  1. canonical encodings (the bytes object.Marshal produces, i.e. what the node stores and
+//     sends): every fast path succeeds and returns exactly what full decoding returns;
+//  2. prefixes of canonical encodings (every truncation position; the output of
+//     WriteWithoutPayload): a fast path may only report what the complete object contains.
+//     A field that lies wholly inside the prefix is reported with its true bounds/value, a
+//     field that is absent or starts behind the cut is reported missing, a field that is cut
+//     in the middle makes the call fail.  Once the whole non-payload part is inside the
+//     prefix the call has to succeed (that is the "payload prefix" use of these functions);
+//  3. any input at all (mutated, random): no panic, no process-fatal error, reported bounds
+//     lie inside the input.
+//
+// Nothing is demanded about the *value* returned for a byte string that full decoding
+// accepts but no encoder produces (repeated, unordered or unknown fields): the fast paths
+// document that they rely on ascending field order and the property speaks about encoded
+// objects.  How often the fast paths refuse / agree / differ on such input is only counted.
+//
+// All inputs are executed in child processes which record each input on disk first, so
+// that a process-fatal runtime error (checkptr under -race in the thorough tier) is
+// reported with the input that caused it.
 
 import (
 	"bytes"
 	"encoding/json"
 	"fmt"
+	"io"
 	"math/rand/v2"
 	"testing"
 	"time"
@@ -23,6 +42,7 @@ import (
 	protoobject "github.com/nspcc-dev/neofs-sdk-go/proto/object"
 	iprotobuf "github.com/nspcc-dev/neofs-sdk-go/proto/protobuf"
 	"github.com/nspcc-dev/neofs-sdk-go/proto/refs"
+	"google.golang.org/protobuf/encoding/protowire"
 	"google.golang.org/protobuf/proto"
 )
 
@@ -63,13 +83,131 @@ func vf41Decode(x []byte) (f vf41Full) {
 	return f
 }
 
-// vf41Orig describes the valid encoding a truncated input was cut from.
-type vf41Orig struct {
-	full   vf41Full
-	bin    []byte
-	pstart int // offset of the first payload byte (len(bin) when there is no payload)
-	cut    int
+// ---------------------------------------------------------------------------------
+// independent layout of a canonical encoding (field numbers from the NeoFS API object.proto)
+
+const (
+	vf41NumID, vf41NumSig, vf41NumHdr, vf41NumPayload = 1, 2, 3, 4
+	vf41NumHdrPayloadLen, vf41NumHdrType, vf41NumSplit = 5, 7, 11
+	vf41NumSplitParent, vf41NumSplitParentSig          = 1, 3
+	vf41NumSplitParentHdr                              = 4
+)
+
+type vf41Ext struct {
+	from, valFrom, to int
+	ok                bool
 }
+
+// vf41Find walks the message b[from:to] and returns the extent of its first field num.
+func vf41Find(b []byte, from, to int, num protowire.Number) vf41Ext {
+	off := from
+	for off < to {
+		n, typ, tl := protowire.ConsumeTag(b[off:to])
+		if tl < 0 {
+			return vf41Ext{}
+		}
+		vl := protowire.ConsumeFieldValue(n, typ, b[off+tl:to])
+		if vl < 0 {
+			return vf41Ext{} // incomplete last field (the length-only payload field of WriteWithoutPayload)
+		}
+		if n == num {
+			vf := off + tl
+			if typ == protowire.BytesType {
+				_, k := protowire.ConsumeVarint(b[off+tl : to])
+				vf += k
+			}
+			return vf41Ext{off, vf, off + tl + vl, true}
+		}
+		off += tl + vl
+	}
+	return vf41Ext{}
+}
+
+type vf41Layout struct {
+	id, sig, hdr    vf41Ext
+	pid, psig, phdr vf41Ext // parent fields inside header.split
+	plen, typ       vf41Ext // header.payload_length, header.object_type
+	pstart          int     // offset of the first payload byte; len(bin) without payload field
+}
+
+func vf41LayoutOf(bin []byte) vf41Layout {
+	var l vf41Layout
+	l.id = vf41Find(bin, 0, len(bin), vf41NumID)
+	l.sig = vf41Find(bin, 0, len(bin), vf41NumSig)
+	l.hdr = vf41Find(bin, 0, len(bin), vf41NumHdr)
+	l.pstart = len(bin)
+	if p := vf41Find(bin, 0, len(bin), vf41NumPayload); p.ok {
+		l.pstart = p.valFrom
+	}
+	if l.hdr.ok {
+		l.plen = vf41Find(bin, l.hdr.valFrom, l.hdr.to, vf41NumHdrPayloadLen)
+		l.typ = vf41Find(bin, l.hdr.valFrom, l.hdr.to, vf41NumHdrType)
+		if sp := vf41Find(bin, l.hdr.valFrom, l.hdr.to, vf41NumSplit); sp.ok {
+			l.pid = vf41Find(bin, sp.valFrom, sp.to, vf41NumSplitParent)
+			l.psig = vf41Find(bin, sp.valFrom, sp.to, vf41NumSplitParentSig)
+			l.phdr = vf41Find(bin, sp.valFrom, sp.to, vf41NumSplitParentHdr)
+		}
+	}
+	return l
+}
+
+// vf41Ref is what an input is judged against: the complete canonical encoding bin of a
+// fully decoded object, its layout, and how much of it the input contains (cut).
+type vf41Ref struct {
+	full vf41Full
+	bin  []byte
+	lay  vf41Layout
+	cut  int
+}
+
+// selfCheck verifies the harness' own layout against the decoded message.
+func (r *vf41Ref) selfCheck() string {
+	m := r.full.msg
+	chk := func(name string, e vf41Ext, present bool, want vf41Stable) string {
+		if e.ok != present {
+			return fmt.Sprintf("%s presence %v vs %v", name, e.ok, present)
+		}
+		if present && !bytes.Equal(r.bin[e.valFrom:e.to], vf41Bytes(want)) {
+			return name + " bytes"
+		}
+		return ""
+	}
+	if s := chk("id", r.lay.id, m.ObjectId != nil, m.ObjectId); s != "" {
+		return s
+	}
+	if s := chk("sig", r.lay.sig, m.Signature != nil, m.Signature); s != "" {
+		return s
+	}
+	if s := chk("hdr", r.lay.hdr, m.Header != nil, m.Header); s != "" {
+		return s
+	}
+	var sp *protoobject.Header_Split
+	if m.Header != nil {
+		sp = m.Header.Split
+	}
+	if sp == nil {
+		sp = new(protoobject.Header_Split)
+	}
+	if s := chk("parent id", r.lay.pid, sp.Parent != nil, sp.Parent); s != "" {
+		return s
+	}
+	if s := chk("parent sig", r.lay.psig, sp.ParentSignature != nil, sp.ParentSignature); s != "" {
+		return s
+	}
+	if s := chk("parent hdr", r.lay.phdr, sp.ParentHeader != nil, sp.ParentHeader); s != "" {
+		return s
+	}
+	if r.lay.plen.ok != (r.full.obj.PayloadSize() != 0) || r.lay.typ.ok != (r.full.obj.Type() != 0) {
+		return "payload length / type presence"
+	}
+	return ""
+}
+
+func vf41NewRef(bin []byte, full vf41Full, cut int) *vf41Ref {
+	return &vf41Ref{full: full, bin: bin, lay: vf41LayoutOf(bin), cut: cut}
+}
+
+// ---------------------------------------------------------------------------------
 
 type vf41Checker struct {
 	c *vf41.Collector
@@ -79,8 +217,8 @@ func (k *vf41Checker) vio(fn, kind, class, what string, x []byte) {
 	k.c.Violation(fmt.Sprintf("C41|%s|%s|%s", fn, class, kind), fmt.Sprintf("%s on %s input of %d bytes: %s", fn, kind, len(x), what), kind, x, "")
 }
 
-// sameObject compares the non-payload content located or extracted by a fast path with
-// the full decoding on the semantic level (both re-encoded canonically).
+// vf41SemanticHeader re-encodes what a bounds-returning fast path located (used only for
+// the statistics about decodable non-canonical input).
 func vf41SemanticHeader(id, sig, hdr []byte, idSet, sigSet, hdrSet bool) ([]byte, error) {
 	var m protoobject.Object
 	if idSet {
@@ -108,34 +246,105 @@ func vf41SemanticHeader(id, sig, hdr []byte, idSet, sigSet, hdrSet bool) ([]byte
 	return o.Marshal(), nil
 }
 
-func vf41Cut(x []byte, f iprotobuf.FieldBounds) ([]byte, bool) {
+func vf41Inside(n int, f iprotobuf.FieldBounds) bool {
 	if f.IsMissing() {
-		return nil, true
+		return true
 	}
-	if f.From < 0 || f.ValueFrom < f.From || f.To < f.ValueFrom || f.To > len(x) {
-		return nil, false
-	}
-	return x[f.ValueFrom:f.To], true
+	return f.From >= 0 && f.ValueFrom > f.From && f.To >= f.ValueFrom && f.To <= n
 }
 
-// check runs every fast path on x and judges it.
-func (k *vf41Checker) check(x []byte, kind string, orig *vf41Orig) {
+// judgeField: got is what a fast path reported for a field whose true extent in ref.bin is
+// ext, when it was given ref.bin[base:...cut].
+func (k *vf41Checker) judgeField(fn, kind, name string, got iprotobuf.FieldBounds, base int, ext vf41Ext, cut int, x []byte) {
+	if got.IsMissing() {
+		if ext.ok && ext.from < cut {
+			part := "wholly"
+			if ext.to > cut {
+				part = "partly"
+			}
+			k.vio(fn, kind, "reported-missing|"+name+"|"+part+"-present", fmt.Sprintf("field occupies [%d,%d) of the encoding, input ends at %d", ext.from, ext.to, cut), x)
+		}
+		return
+	}
+	want := iprotobuf.FieldBounds{From: ext.from - base, ValueFrom: ext.valFrom - base, To: ext.to - base}
+	switch {
+	case !ext.ok:
+		k.vio(fn, kind, "reported-absent-field|"+name, fmt.Sprintf("got %+v, the object has no such field", got), x)
+	case ext.to > cut:
+		k.vio(fn, kind, "reported-cut-field|"+name, fmt.Sprintf("got %+v, the field ends at %d, input at %d", got, ext.to-base, cut-base), x)
+	case got != want:
+		k.vio(fn, kind, "bounds-differ|"+name, fmt.Sprintf("got %+v, want %+v", got, want), x)
+	}
+}
+
+// judgeUint: same for a scalar header field (canonical encodings omit zero values).
+func (k *vf41Checker) judgeUint(fn, kind string, got, want uint64, ext vf41Ext, cut int, x []byte) {
+	switch {
+	case ext.ok && ext.to <= cut:
+		if got != want {
+			k.vio(fn, kind, "value-differs", fmt.Sprintf("got %d, full decoding %d", got, want), x)
+		}
+	case !ext.ok || ext.from >= cut:
+		if got != 0 {
+			k.vio(fn, kind, "value-for-absent-field", fmt.Sprintf("got %d for a field that is not in the input", got), x)
+		}
+	default:
+		k.vio(fn, kind, "value-from-cut-field", fmt.Sprintf("got %d without error, field occupies [%d,%d), input ends at %d", got, ext.from, ext.to, cut), x)
+	}
+}
+
+// vf41ChunkReader hands out the data in seeded small pieces.
+type vf41ChunkReader struct {
+	b   []byte
+	rng *rand.Rand
+}
+
+func (r *vf41ChunkReader) Read(p []byte) (int, error) {
+	if len(r.b) == 0 {
+		return 0, io.EOF
+	}
+	n := min(len(p), len(r.b), 1+r.rng.IntN(5000))
+	copy(p, r.b[:n])
+	r.b = r.b[n:]
+	return n, nil
+}
+
+// check runs every fast path on x and judges it.  ref is nil for input that is not derived
+// from a canonical encoding in a known way (mutated, random).
+func (k *vf41Checker) check(x []byte, kind string, ref *vf41Ref, rng *rand.Rand) {
 	c := k.c
 	c.Begin(kind, x)
 	full := vf41Decode(x)
 	if full.panicked {
 		c.Count("reference_decoder_panicked", 1)
 	}
-	mustAgree := full.ok && full.canonical && len(x) > 0 // empty input: the fast paths document an error
+	selfCanon := full.ok && full.canonical && len(x) > 0 // empty input: the fast paths document an error
+	if ref == nil && selfCanon {
+		ref = vf41NewRef(x, full, len(x))
+		c.Count("inputs_"+kind+"_that_are_canonical_encodings", 1)
+	}
 	c.Count("inputs_"+kind, 1)
 	switch {
-	case mustAgree:
+	case selfCanon:
 		c.Count("inputs_fully_decodable_canonical", 1)
 	case full.ok:
 		c.Count("inputs_fully_decodable_noncanonical", 1)
 	default:
 		c.Count("inputs_not_decodable", 1)
 	}
+	complete := false
+	if ref != nil {
+		if s := ref.selfCheck(); s != "" {
+			c.Violation("HARNESS-PANIC|layout-selfcheck", s, kind, x, "")
+			return
+		}
+		complete = ref.cut >= ref.lay.pstart
+		if complete && ref.cut < len(ref.bin) {
+			c.Count("inputs_prefix_with_complete_non_payload_part", 1)
+		}
+	}
+	mustSucceed := ref != nil && (complete || selfCanon)
+	noncanon := full.ok && !full.canonical
 	outcome := ""
 	note := func(fn string, err error) {
 		if err == nil {
@@ -146,76 +355,93 @@ func (k *vf41Checker) check(x []byte, kind string, orig *vf41Orig) {
 			c.Count(fn+"_err", 1)
 		}
 	}
+	stat := func(fn, what string) {
+		if noncanon {
+			c.Count("observed_noncanonical_decodable|"+fn+"|"+what, 1)
+		}
+	}
+
+	// judgeExtract judges a (header, payload prefix, error) answer given for ref.bin[:cut]
+	judgeExtract := func(fn string, hdr *object.Object, prefix []byte, err error, cut int, self, exact bool) {
+		compl := cut >= ref.lay.pstart
+		if err != nil {
+			if compl || self {
+				cl := "error-for-valid"
+				if cut < len(ref.bin) {
+					cl = "error-for-prefix-with-complete-non-payload-part"
+				}
+				k.vio(fn, kind, cl, fmt.Sprintf("input holds %d of %d bytes, payload starts at %d: %v", cut, len(ref.bin), ref.lay.pstart, err), x)
+			}
+			return
+		}
+		if hdr == nil {
+			k.vio(fn, kind, "nil-without-error", "nil header with nil error", x)
+			return
+		}
+		got := hdr.CutPayload().Marshal()
+		switch {
+		case compl:
+			if !bytes.Equal(got, ref.full.hdrBin) {
+				k.vio(fn, kind, "header-differs-from-full-decoding", fmt.Sprintf("extracted header re-encodes to %d bytes, fully decoded one to %d", len(got), len(ref.full.hdrBin)), x)
+			}
+			if avail := ref.bin[ref.lay.pstart:cut]; (exact && !bytes.Equal(prefix, avail)) || !bytes.HasPrefix(avail, prefix) {
+				k.vio(fn, kind, "payload-prefix-differs", fmt.Sprintf("input holds %d bytes, payload starts at %d: got %d bytes", cut, ref.lay.pstart, len(prefix)), x)
+			}
+			c.Count("agreement_checks_"+fn, 1)
+		case self:
+			if !bytes.Equal(got, full.hdrBin) {
+				k.vio(fn, kind, "header-differs-from-full-decoding", "input cut at a field boundary", x)
+			}
+			if len(prefix) != 0 {
+				k.vio(fn, kind, "payload-prefix-differs", fmt.Sprintf("%d payload bytes from an input without payload", len(prefix)), x)
+			}
+			c.Count("agreement_checks_"+fn, 1)
+		default:
+			k.vio(fn, kind, "success-on-cut-field", fmt.Sprintf("no error although the input ends at %d inside a non-payload field (payload starts at %d)", cut, ref.lay.pstart), x)
+		}
+	}
 
 	// --- ExtractHeaderAndPayload
 	c.Guard("ExtractHeaderAndPayload", kind, x, func() {
 		hdr, prefix, err := ExtractHeaderAndPayload(x)
 		note("ExtractHeaderAndPayload", err)
-		if err != nil {
-			if mustAgree {
-				k.vio("ExtractHeaderAndPayload", kind, "error-for-valid", err.Error(), x)
-			} else if orig != nil && orig.cut >= orig.pstart && orig.pstart < len(orig.bin) {
-				k.vio("ExtractHeaderAndPayload", kind, "error-for-truncated-payload", fmt.Sprintf("cut at %d, payload starts at %d of %d: %v", orig.cut, orig.pstart, len(orig.bin), err), x)
-			}
+		if ref != nil {
+			judgeExtract("ExtractHeaderAndPayload", hdr, prefix, err, ref.cut, selfCanon, true)
 			return
 		}
-		if hdr == nil {
-			k.vio("ExtractHeaderAndPayload", kind, "nil-without-error", "nil header with nil error", x)
-			return
-		}
-		got := hdr.CutPayload().Marshal()
 		switch {
-		case full.ok:
-			if !bytes.Equal(got, full.hdrBin) {
-				cl := "header-differs-from-full-decoding"
-				if !full.canonical {
-					cl = "differential-on-noncanonical-input|header"
-				}
-				k.vio("ExtractHeaderAndPayload", kind, cl, fmt.Sprintf("extracted header re-encodes to %d bytes, fully decoded one to %d", len(got), len(full.hdrBin)), x)
-			}
-			if !bytes.Equal(prefix, full.obj.Payload()) {
-				cl := "payload-differs-from-full-decoding"
-				if !full.canonical {
-					cl = "differential-on-noncanonical-input|payload"
-				}
-				k.vio("ExtractHeaderAndPayload", kind, cl, fmt.Sprintf("payload prefix of %d bytes, fully decoded payload of %d", len(prefix), len(full.obj.Payload())), x)
-			}
-			c.Count("agreement_checks_ExtractHeaderAndPayload", 1)
-		case orig != nil && orig.cut >= orig.pstart:
-			// truncated inside the payload: header of the original, payload bytes that are there
-			if !bytes.Equal(got, orig.full.hdrBin) {
-				k.vio("ExtractHeaderAndPayload", kind, "header-differs-on-truncated-payload", fmt.Sprintf("cut at %d", orig.cut), x)
-			}
-			if !bytes.Equal(prefix, orig.bin[orig.pstart:orig.cut]) {
-				k.vio("ExtractHeaderAndPayload", kind, "payload-prefix-differs", fmt.Sprintf("cut at %d, payload starts at %d: got %d bytes", orig.cut, orig.pstart, len(prefix)), x)
-			}
-			c.Count("agreement_checks_truncated_payload", 1)
+		case err != nil:
+			stat("ExtractHeaderAndPayload", "refused")
+		case hdr == nil:
+			k.vio("ExtractHeaderAndPayload", kind, "nil-without-error", "nil header with nil error", x)
+		case noncanon && bytes.Equal(hdr.CutPayload().Marshal(), full.hdrBin) && bytes.Equal(prefix, full.obj.Payload()):
+			stat("ExtractHeaderAndPayload", "same-as-full-decoding")
+		default:
+			stat("ExtractHeaderAndPayload", "other-than-full-decoding")
 		}
 	})
 
-	// --- ReadHeaderPrefix (same function behind a reader limited to object.MaxHeaderLen bytes)
+	// --- ReadHeaderPrefix: the same behind a reader.  How many bytes it reads is its own
+	// business: the payload bytes it returns followed by what is left in the reader have to
+	// be the payload.
 	c.Guard("ReadHeaderPrefix", kind, x, func() {
-		hdr, prefix, err := ReadHeaderPrefix(bytes.NewReader(x))
+		rd := &vf41ChunkReader{b: x, rng: rng}
+		hdr, prefix, err := ReadHeaderPrefix(rd)
 		note("ReadHeaderPrefix", err)
-		if !mustAgree {
+		prefix = append(bytes.Clone(prefix), rd.b...) // what the caller continues with
+		if err == nil && hdr == nil {
+			k.vio("ReadHeaderPrefix", kind, "nil-without-error", "nil header with nil error", x)
 			return
 		}
-		nonPayload := len(full.hdrBin)
-		if err != nil {
-			if nonPayload+16 <= object.MaxHeaderLen || len(x) <= object.MaxHeaderLen {
-				k.vio("ReadHeaderPrefix", kind, "error-for-valid", err.Error(), x)
-			} else {
-				k.vio("ReadHeaderPrefix", kind, "error-for-valid|non-payload-part-longer-than-MaxHeaderLen", fmt.Sprintf("%d bytes before the payload: %v", nonPayload, err), x)
-			}
+		if ref == nil {
 			return
 		}
-		if got := hdr.CutPayload().Marshal(); !bytes.Equal(got, full.hdrBin) {
-			k.vio("ReadHeaderPrefix", kind, "header-differs-from-full-decoding", "", x)
+		if err != nil && mustSucceed && min(ref.cut, ref.lay.pstart) > object.MaxHeaderLen {
+			c.Count("inputs_whose_non_payload_part_exceeds_MaxHeaderLen", 1)
+			c.Violation("C41|ReadHeaderPrefix|error-for-valid|id+signature+header-longer-than-read-limit", fmt.Sprintf("ReadHeaderPrefix on %s input of %d bytes: header of %d bytes (limit %d), but %d bytes precede the payload: %v", kind, len(x), ref.full.obj.HeaderLen(), object.MaxHeaderLen, ref.lay.pstart, err), kind, x, "")
+			return
 		}
-		if pl := full.obj.Payload(); len(prefix) > len(pl) || !bytes.Equal(prefix, pl[:len(prefix)]) {
-			k.vio("ReadHeaderPrefix", kind, "payload-prefix-differs", "", x)
-		}
-		c.Count("agreement_checks_ReadHeaderPrefix", 1)
+		judgeExtract("ReadHeaderPrefix", hdr, prefix, err, ref.cut, selfCanon, true)
 	})
 
 	// --- GetNonPayloadFieldBounds
@@ -224,145 +450,138 @@ func (k *vf41Checker) check(x []byte, kind string, orig *vf41Orig) {
 		idf, sigf, hdrf, err := GetNonPayloadFieldBounds(x)
 		note("GetNonPayloadFieldBounds", err)
 		if err != nil {
-			if mustAgree {
+			if mustSucceed {
 				k.vio("GetNonPayloadFieldBounds", kind, "error-for-valid", err.Error(), x)
 			}
+			stat("GetNonPayloadFieldBounds", "refused")
 			return
 		}
-		id, ok1 := vf41Cut(x, idf)
-		sig, ok2 := vf41Cut(x, sigf)
-		hdr, ok3 := vf41Cut(x, hdrf)
-		if !ok1 || !ok2 || !ok3 {
+		if !vf41Inside(len(x), idf) || !vf41Inside(len(x), sigf) || !vf41Inside(len(x), hdrf) {
 			k.vio("GetNonPayloadFieldBounds", kind, "bounds-outside-input", fmt.Sprintf("id=%+v sig=%+v hdr=%+v for %d bytes", idf, sigf, hdrf, len(x)), x)
 			return
 		}
-		hdrBytes = hdr
-		if !full.ok {
+		if !hdrf.IsMissing() {
+			hdrBytes = x[hdrf.ValueFrom:hdrf.To]
+		}
+		if ref != nil {
+			k.judgeField("GetNonPayloadFieldBounds", kind, "id", idf, 0, ref.lay.id, ref.cut, x)
+			k.judgeField("GetNonPayloadFieldBounds", kind, "signature", sigf, 0, ref.lay.sig, ref.cut, x)
+			k.judgeField("GetNonPayloadFieldBounds", kind, "header", hdrf, 0, ref.lay.hdr, ref.cut, x)
+			c.Count("agreement_checks_GetNonPayloadFieldBounds", 1)
 			return
 		}
-		c.Count("agreement_checks_GetNonPayloadFieldBounds", 1)
-		if full.canonical {
-			for _, p := range []struct {
-				name string
-				got  []byte
-				miss bool
-				want vf41Stable
-				nilW bool
-			}{
-				{"id", id, idf.IsMissing(), full.msg.ObjectId, full.msg.ObjectId == nil},
-				{"signature", sig, sigf.IsMissing(), full.msg.Signature, full.msg.Signature == nil},
-				{"header", hdr, hdrf.IsMissing(), full.msg.Header, full.msg.Header == nil},
-			} {
-				if p.miss != p.nilW {
-					k.vio("GetNonPayloadFieldBounds", kind, "presence-differs|"+p.name, fmt.Sprintf("reported missing=%v, full decoding has it=%v", p.miss, !p.nilW), x)
-				} else if !p.nilW && !bytes.Equal(p.got, vf41Bytes(p.want)) {
-					k.vio("GetNonPayloadFieldBounds", kind, "bytes-differ|"+p.name, "located bytes are not the encoding of the fully decoded field", x)
-				}
+		if noncanon {
+			var id, sig []byte
+			if !idf.IsMissing() {
+				id = x[idf.ValueFrom:idf.To]
 			}
-			return
-		}
-		sem, err := vf41SemanticHeader(id, sig, hdr, !idf.IsMissing(), !sigf.IsMissing(), !hdrf.IsMissing())
-		if err != nil || !bytes.Equal(sem, full.hdrBin) {
-			k.vio("GetNonPayloadFieldBounds", kind, "differential-on-noncanonical-input", fmt.Sprintf("located fields decode to something else than the full decoding (err=%v)", err), x)
+			if !sigf.IsMissing() {
+				sig = x[sigf.ValueFrom:sigf.To]
+			}
+			if sem, err := vf41SemanticHeader(id, sig, hdrBytes, !idf.IsMissing(), !sigf.IsMissing(), !hdrf.IsMissing()); err == nil && bytes.Equal(sem, full.hdrBin) {
+				stat("GetNonPayloadFieldBounds", "same-as-full-decoding")
+			} else {
+				stat("GetNonPayloadFieldBounds", "other-than-full-decoding")
+			}
 		}
 	})
 
-	// --- GetParentNonPayloadFieldBounds (object buffer) and ...Header (header buffer)
-	parentCheck := func(fn string, buf []byte, call func([]byte) (iprotobuf.FieldBounds, iprotobuf.FieldBounds, iprotobuf.FieldBounds, error), agree bool) {
+	// --- GetParentNonPayloadFieldBounds (object buffer)
+	parentCheck := func(fn string, buf []byte, base int, call func([]byte) (iprotobuf.FieldBounds, iprotobuf.FieldBounds, iprotobuf.FieldBounds, error), judge, must bool) {
 		c.Guard(fn, kind, x, func() {
 			idf, sigf, hdrf, err := call(buf)
 			note(fn, err)
 			if err != nil {
-				if agree && len(buf) > 0 {
+				if judge && must && len(buf) > 0 {
 					k.vio(fn, kind, "error-for-valid", err.Error(), x)
 				}
 				return
 			}
-			id, ok1 := vf41Cut(buf, idf)
-			sig, ok2 := vf41Cut(buf, sigf)
-			hdr, ok3 := vf41Cut(buf, hdrf)
-			if !ok1 || !ok2 || !ok3 {
+			if !vf41Inside(len(buf), idf) || !vf41Inside(len(buf), sigf) || !vf41Inside(len(buf), hdrf) {
 				k.vio(fn, kind, "bounds-outside-input", fmt.Sprintf("id=%+v sig=%+v hdr=%+v for %d bytes", idf, sigf, hdrf, len(buf)), x)
 				return
 			}
-			if !agree {
+			if !judge {
 				return
 			}
+			k.judgeField(fn, kind, "parent-id", idf, base, ref.lay.pid, ref.cut, x)
+			k.judgeField(fn, kind, "parent-signature", sigf, base, ref.lay.psig, ref.cut, x)
+			k.judgeField(fn, kind, "parent-header", hdrf, base, ref.lay.phdr, ref.cut, x)
 			c.Count("agreement_checks_"+fn, 1)
-			var sp *protoobject.Header_Split
-			if full.msg.Header != nil {
-				sp = full.msg.Header.Split
-			}
-			var wantID *refs.ObjectID
-			var wantSig *refs.Signature
-			var wantHdr *protoobject.Header
-			if sp != nil {
-				wantID, wantSig, wantHdr = sp.Parent, sp.ParentSignature, sp.ParentHeader
-			}
-			if wantHdr != nil || wantSig != nil || wantID != nil {
+			if (ref.lay.pid.ok && ref.lay.pid.to <= ref.cut) || (ref.lay.psig.ok && ref.lay.psig.to <= ref.cut) || (ref.lay.phdr.ok && ref.lay.phdr.to <= ref.cut) {
 				c.Count("agreement_checks_with_parent_fields", 1)
-			}
-			if idf.IsMissing() != (wantID == nil) || (wantID != nil && !bytes.Equal(id, vf41Bytes(wantID))) {
-				k.vio(fn, kind, "parent-id-differs", "", x)
-			}
-			if sigf.IsMissing() != (wantSig == nil) || (wantSig != nil && !bytes.Equal(sig, vf41Bytes(wantSig))) {
-				k.vio(fn, kind, "parent-signature-differs", "", x)
-			}
-			if hdrf.IsMissing() != (wantHdr == nil) || (wantHdr != nil && !bytes.Equal(hdr, vf41Bytes(wantHdr))) {
-				k.vio(fn, kind, "parent-header-differs", "", x)
 			}
 		})
 	}
-	parentCheck("GetParentNonPayloadFieldBounds", x, GetParentNonPayloadFieldBounds, mustAgree)
+	parentCheck("GetParentNonPayloadFieldBounds", x, 0, GetParentNonPayloadFieldBounds, ref != nil, mustSucceed)
 
-	// --- header-level functions: on the header located above and on x itself taken as a header
-	hdrInputs := [][]byte{x}
-	agreeHdr := []bool{false}
-	if hdrBytes != nil {
-		hdrInputs = append(hdrInputs, hdrBytes)
-		agreeHdr = append(agreeHdr, mustAgree)
-	}
-	for i, h := range hdrInputs {
-		agree := agreeHdr[i] && full.msg != nil && full.msg.Header != nil
+	// --- header-level functions on the (possibly cut) header of the reference encoding
+	if ref != nil && ref.lay.hdr.ok && ref.lay.hdr.valFrom < ref.cut {
+		h := ref.bin[ref.lay.hdr.valFrom:min(ref.lay.hdr.to, ref.cut)]
+		hdrComplete := ref.cut >= ref.lay.hdr.to
+		if !hdrComplete {
+			c.Count("header_level_calls_on_cut_header", 1)
+		}
 		c.Guard("GetPayloadLengthHeader", kind, x, func() {
 			v, err := GetPayloadLengthHeader(h)
 			note("GetPayloadLengthHeader", err)
-			if agree {
-				if err != nil {
+			if err != nil {
+				if hdrComplete {
 					k.vio("GetPayloadLengthHeader", kind, "error-for-valid", err.Error(), x)
-				} else if v != full.obj.PayloadSize() {
-					k.vio("GetPayloadLengthHeader", kind, "value-differs", fmt.Sprintf("got %d, full decoding %d", v, full.obj.PayloadSize()), x)
 				}
-				c.Count("agreement_checks_GetPayloadLengthHeader", 1)
+				return
 			}
+			k.judgeUint("GetPayloadLengthHeader", kind, v, ref.full.obj.PayloadSize(), ref.lay.plen, ref.cut, x)
+			c.Count("agreement_checks_GetPayloadLengthHeader", 1)
 		})
 		c.Guard("GetTypeHeader", kind, x, func() {
 			v, err := GetTypeHeader(h)
 			note("GetTypeHeader", err)
-			if agree {
-				if err != nil {
+			if err != nil {
+				if hdrComplete {
 					k.vio("GetTypeHeader", kind, "error-for-valid", err.Error(), x)
-				} else if v != full.obj.Type() {
-					k.vio("GetTypeHeader", kind, "value-differs", fmt.Sprintf("got %d, full decoding %d", v, full.obj.Type()), x)
 				}
-				c.Count("agreement_checks_GetTypeHeader", 1)
+				return
 			}
+			k.judgeUint("GetTypeHeader", kind, uint64(uint32(v)), uint64(uint32(ref.full.obj.Type())), ref.lay.typ, ref.cut, x)
+			c.Count("agreement_checks_GetTypeHeader", 1)
+			c.Seen("object_types_agreed_on", fmt.Sprint(v))
 		})
-		parentCheck("GetParentNonPayloadFieldBoundsHeader", h, GetParentNonPayloadFieldBoundsHeader, agree)
-	}
-	// non-canonical but fully decodable input: the header-level values must not contradict the full decoding either
-	if full.ok && !full.canonical && hdrBytes != nil && full.msg.Header != nil {
-		c.Guard("GetPayloadLengthHeader", kind, x, func() {
-			if v, err := GetPayloadLengthHeader(hdrBytes); err == nil && v != full.obj.PayloadSize() {
-				k.vio("GetPayloadLengthHeader", kind, "differential-on-noncanonical-input", fmt.Sprintf("got %d, full decoding %d", v, full.obj.PayloadSize()), x)
-			}
-			if v, err := GetTypeHeader(hdrBytes); err == nil && v != full.obj.Type() {
-				k.vio("GetTypeHeader", kind, "differential-on-noncanonical-input", fmt.Sprintf("got %d, full decoding %d", v, full.obj.Type()), x)
-			}
-		})
+		parentCheck("GetParentNonPayloadFieldBoundsHeader", h, ref.lay.hdr.valFrom, GetParentNonPayloadFieldBoundsHeader, true, hdrComplete)
 	}
 
-	c.DistinctSig(fmt.Sprintf("%s|decodable=%v|canonical=%v|%s", kind, full.ok, full.canonical, outcome))
+	// --- header-level functions on arbitrary bytes: x itself taken as a header, and whatever
+	// GetNonPayloadFieldBounds located in an input that is not judged above
+	hdrInputs := [][]byte{x}
+	if hdrBytes != nil && ref == nil {
+		hdrInputs = append(hdrInputs, hdrBytes)
+	}
+	for i, h := range hdrInputs {
+		c.Guard("GetPayloadLengthHeader", kind, x, func() {
+			v, err := GetPayloadLengthHeader(h)
+			if i == 1 && err == nil && noncanon && full.msg.Header != nil {
+				if v == full.obj.PayloadSize() {
+					stat("GetPayloadLengthHeader", "same-as-full-decoding")
+				} else {
+					stat("GetPayloadLengthHeader", "other-than-full-decoding")
+				}
+			}
+		})
+		c.Guard("GetTypeHeader", kind, x, func() {
+			v, err := GetTypeHeader(h)
+			if i == 1 && err == nil && noncanon && full.msg.Header != nil {
+				if v == full.obj.Type() {
+					stat("GetTypeHeader", "same-as-full-decoding")
+				} else {
+					stat("GetTypeHeader", "other-than-full-decoding")
+				}
+			}
+		})
+		parentCheck("GetParentNonPayloadFieldBoundsHeader", h, 0, GetParentNonPayloadFieldBoundsHeader, false, false)
+		c.Count("header_level_calls_on_arbitrary_bytes", 3)
+	}
+
+	c.DistinctSig(fmt.Sprintf("%s|decodable=%v|canonical=%v|judged=%v|%s", kind, full.ok, full.canonical, ref != nil, outcome))
 }
 
 // vf41Child executes one batch.
@@ -377,17 +596,29 @@ func vf41Child(t *testing.T, specJSON string) {
 		t.Fatal(err)
 	}
 	k := &vf41Checker{c: c}
-	var pool [][]byte // valid encodings to mutate
+	var pool [][]byte // valid encodings to cut and mutate
 	newValid := func(rng *rand.Rand) []byte {
 		for range 20 {
 			o := vf41.Object(rng)
+			if o.HeaderLen() > object.MaxHeaderLen {
+				c.Count("generator_rejects_header_over_limit", 1)
+				continue
+			}
 			b := o.Marshal()
-			if f := vf41Decode(b); f.ok && f.canonical {
+			if f := vf41Decode(b); f.ok && f.canonical && len(b) > 0 {
 				return b
 			}
 			c.Count("generator_rejects", 1)
 		}
 		return nil
+	}
+	sweep := func(b []byte, rng *rand.Rand) int {
+		full := vf41Decode(b)
+		for cut := 0; cut < len(b); cut++ {
+			k.check(b[:cut], "truncated", vf41NewRef(b, full, cut), rng)
+		}
+		c.Count("encodings_truncated_at_every_position", 1)
+		return len(b)
 	}
 	for i := 0; i < spec.N; {
 		rng := r.Rand(fmt.Sprintf("batch-%d", spec.Batch), i)
@@ -403,12 +634,26 @@ func vf41Child(t *testing.T, specJSON string) {
 			} else {
 				pool[rng.IntN(len(pool))] = b
 			}
-			k.check(b, "valid", nil)
+			f := vf41Decode(b)
+			k.check(b, "valid", vf41NewRef(b, f, len(b)), rng)
+			i++
 			if spec.Batch == 0 && i < 40 {
-				f := vf41Decode(b)
 				c.Sample(map[string]any{"kind": "valid", "len": len(b), "has_parent_header": f.msg.Header != nil && f.msg.Header.Split != nil && f.msg.Header.Split.ParentHeader != nil, "payload_len": len(f.obj.Payload())})
 			}
-			i++
+			// the same object as WriteWithoutPayload emits it
+			var w bytes.Buffer
+			var werr error
+			c.Guard("WriteWithoutPayload", "valid", b, func() { werr = WriteWithoutPayload(&w, f.obj) })
+			if out := w.Bytes(); werr == nil && len(out) > 0 {
+				if !bytes.HasPrefix(out, f.hdrBin) {
+					k.vio("WriteWithoutPayload", "header-only", "output-does-not-start-with-non-payload-part", "", out)
+				} else {
+					ref := vf41NewRef(out, f, len(out))
+					ref.lay.pstart = len(out)
+					k.check(out, "header-only", ref, rng)
+					i++
+				}
+			}
 		case sel < 14: // every truncation of a (small) valid encoding
 			b := pool[rng.IntN(len(pool))]
 			if len(b) > 1500 {
@@ -418,29 +663,58 @@ func vf41Child(t *testing.T, specJSON string) {
 					continue
 				}
 			}
-			full := vf41Decode(b)
-			pstart := len(b) - len(full.obj.Payload())
-			for cut := 0; cut < len(b); cut++ {
-				k.check(b[:cut], "truncated", &vf41Orig{full: full, bin: b, pstart: pstart, cut: cut})
-				i++
-			}
-			c.Count("encodings_truncated_at_every_position", 1)
-		case sel < 20: // truncation of any valid encoding at a random position
+			i += sweep(b, rng)
+		case sel < 20: // truncation of any valid encoding at a random position, biased to the field boundaries
 			b := pool[rng.IntN(len(pool))]
 			full := vf41Decode(b)
+			ref := vf41NewRef(b, full, 0)
 			cut := rng.IntN(len(b) + 1)
-			k.check(b[:cut], "truncated", &vf41Orig{full: full, bin: b, pstart: len(b) - len(full.obj.Payload()), cut: cut})
+			if rng.IntN(3) == 0 {
+				marks := []int{ref.lay.pstart, ref.lay.hdr.to, ref.lay.hdr.valFrom, ref.lay.sig.to, ref.lay.id.to, ref.lay.phdr.to, ref.lay.phdr.valFrom, object.MaxHeaderLen}
+				cut = min(len(b), max(0, marks[rng.IntN(len(marks))]+rng.IntN(5)-2))
+			}
+			ref.cut = cut
+			k.check(b[:cut], "truncated", ref, rng)
 			i++
 		case sel < 85: // mutated valid encoding
 			m, ops := vf41.Mutate(rng, pool[rng.IntN(len(pool))])
 			for _, op := range ops {
 				c.Seen("mutation_steps", op[:min(len(op), 24)])
 			}
-			k.check(m, "mutated", nil)
+			k.check(m, "mutated", nil, rng)
 			i++
 		default:
-			k.check(vf41.RandomBytes(rng), "random", nil)
+			k.check(vf41.RandomBytes(rng), "random", nil, rng)
 			i++
+		}
+	}
+	{
+		// objects whose header is as long as allowed: complete, header-only, cut around the payload start
+		rng := r.Rand("max-header", spec.Batch)
+		o := vf41.MaxHeaderObject(rng, 5000)
+		b := o.Marshal()
+		if f := vf41Decode(b); f.ok && f.canonical && o.HeaderLen() <= object.MaxHeaderLen && o.HeaderLen() > object.MaxHeaderLen-8 {
+			k.check(b, "valid", vf41NewRef(b, f, len(b)), rng)
+			ref := vf41NewRef(b, f, 0)
+			for cut := ref.lay.pstart - 3; cut <= min(len(b), ref.lay.pstart+3); cut++ {
+				k.check(b[:cut], "truncated", vf41NewRef(b, f, cut), rng)
+			}
+			c.Count("maximal_header_objects", 1)
+		}
+	}
+	if spec.Batch == 0 {
+		// one sweep over an encoding with a near-maximal header, so that cuts around the
+		// ReadHeaderPrefix limit are all visited
+		rng := r.Rand("big-sweep", 0)
+		for range 200 {
+			if b := newValid(rng); b != nil && len(b) > object.MaxHeaderLen-2000 && len(b) < object.MaxHeaderLen+3000 {
+				full := vf41Decode(b)
+				for cut := object.MaxHeaderLen - 300; cut < len(b); cut++ {
+					k.check(b[:cut], "truncated", vf41NewRef(b, full, cut), rng)
+				}
+				c.Count("near_limit_encodings_truncated_around_MaxHeaderLen", 1)
+				break
+			}
 		}
 	}
 	if err := c.Save(spec.Out); err != nil {
@@ -455,11 +729,11 @@ func TestVerif_C41(t *testing.T) {
 	}
 	r := verifkit.Start(t, "C41", "exploration")
 	defer r.Finish()
-	nBatches, perBatch := r.Pick(4, 24), r.Pick(6000, 40000)
-	r.SetRule(fmt.Sprintf("%d child processes x %d inputs: generated valid objects (with/without id, signature, header, payload, split and parent fields, near-maximal headers), their encodings truncated at every position, 1-3 structure-aware (duplicate/swap/extra field, varint and tag rewrite, overlong varint, emptied value, with lengths re-encoded or left stale) or byte-level mutations, random strings; every input goes through ExtractHeaderAndPayload, ReadHeaderPrefix, GetNonPayloadFieldBounds, GetParentNonPayloadFieldBounds(+Header), GetPayloadLengthHeader, GetTypeHeader and is compared with object.Unmarshal; distinct = (input kind, fully decodable, canonical, ok/error pattern of the fast paths)", nBatches, perBatch))
-	r.Assume("agreement is demanded for canonical encodings (the bytes the node itself produces); for decodable non-canonical input a fast path may refuse but must not return something else than the full decoding; undecodable input must not panic")
+	nBatches, perBatch := r.Pick(4, 16), r.Pick(15000, 25000)
+	r.SetRule(fmt.Sprintf("%d child processes x %d inputs: generated valid objects (with/without id, signature, header, payload, split and parent fields, near-maximal headers) as Marshal and as WriteWithoutPayload emit them, their encodings truncated at every position, 1-3 structure-aware (duplicate/swap/extra field, varint and tag rewrite, overlong varint, emptied value, with lengths re-encoded or left stale) or byte-level mutations, random strings; every input goes through ExtractHeaderAndPayload, ReadHeaderPrefix (chunked reader), GetNonPayloadFieldBounds, GetParentNonPayloadFieldBounds(+Header), GetPayloadLengthHeader, GetTypeHeader and is judged against object.Unmarshal of the complete object; distinct = (input kind, fully decodable, canonical, judged against a reference, ok/error pattern of the fast paths)", nBatches, perBatch))
+	r.Assume("agreement is demanded for canonical encodings (the bytes the node itself produces) and their prefixes; for byte strings that decode but that no encoder emits (repeated/unordered/unknown fields) only absence of panics and in-range bounds are demanded, the refuse/agree/differ statistics are reported under observed_noncanonical_decodable|*")
 	vf41.RunBatches(t, r, "TestVerif_C41", "wire", nBatches, perBatch, 25*time.Minute)
-	if r.Counter("agreement_checks_with_parent_fields") == 0 || r.Counter("encodings_truncated_at_every_position") == 0 {
-		r.Inconclusive("no object with parent fields or no full truncation sweep was executed")
+	if r.Counter("agreement_checks_with_parent_fields") == 0 || r.Counter("encodings_truncated_at_every_position") == 0 || r.Counter("inputs_prefix_with_complete_non_payload_part") == 0 || r.Counter("maximal_header_objects") == 0 {
+		r.Inconclusive("no object with parent fields, no full truncation sweep, no payload-prefix input or no maximal-header object was executed")
 	}
 }
